@@ -721,6 +721,9 @@ func c26Exec(c c26Case) (verifkit.Outcome, error) {
 	if wantUser == nil && header != "" {
 		o.Labels = append(o.Labels, "invalid-auth-presented")
 	}
+	if polkitCalls > 0 {
+		o.Labels = append(o.Labels, "polkit-consulted")
+	}
 	o.Desc = fmt.Sprintf("%s [%s polkit=%q ifaces=%v] addr=%q auth=%d polkit=%d/%d pidsnap=%d conns=%d degraded=%v => want ran=%v", em.Key, c26KindName[em.Kind], em.Polkit, em.Ifaces, raw, c26Mod(c.Auth, c26AuthCount), answer, grant, c.PidSnap, len(c.Conns), c.Degraded, want)
 
 	// --- verdict
@@ -854,21 +857,27 @@ func c26SafeExec(c c26Case) (o verifkit.Outcome, err error) {
 // ---------------------------------------------------------------------------
 // engine: requests (rapid)
 
+// c26Pct is true in roughly pct percent of the draws (rapid's integer draws lean
+// towards small values, so the rare outcome sits at the top of the range).
+func c26Pct(t *rapid.T, label string, pct int) bool {
+	return rapid.IntRange(0, 99).Draw(t, label) >= 100-pct
+}
+
 func c26GenAddr(t *rapid.T) string {
 	pid := rapid.SampledFrom([]string{"1", "42", "100", "100", "1234", "2147483647", "007"}).Draw(t, "pid")
-	if rapid.IntRange(0, 19).Draw(t, "badpid") == 0 {
+	if c26Pct(t, "badpid", 8) {
 		pid = rapid.SampledFrom([]string{"0", "00", "2147483648", "4294967396", "99999999999999999999"}).Draw(t, "pidx")
 	}
 	uid := rapid.SampledFrom([]string{"0", "0", "0", "1000", "1000", "1000", "1", "65534", "4294967294", "00"}).Draw(t, "uid")
-	if rapid.IntRange(0, 19).Draw(t, "baduid") == 0 {
+	if c26Pct(t, "baduid", 8) {
 		uid = rapid.SampledFrom([]string{"4294967295", "4294967296", "8589934592", "18446744073709551616"}).Draw(t, "uidx")
 	}
 	sock := rapid.SampledFrom([]string{"{SNAPD}", "{SNAP}"}).Draw(t, "sock")
-	if rapid.IntRange(0, 5).Draw(t, "oddsock") == 0 {
+	if c26Pct(t, "oddsock", 18) {
 		sock = rapid.SampledFrom([]string{"/run/other.socket", "", "{SNAPD}x", "{SNAP}/", "/run/snapd.socke", "@", "{SNAPD} ", "/tmp{SNAPD}", "{SNAPD}{SNAP}"}).Draw(t, "sockx")
 	}
 	s := fmt.Sprintf("pid=%s;uid=%s;socket=%s;", pid, uid, sock)
-	if rapid.IntRange(0, 99).Draw(t, "mutate") >= 14 {
+	if !c26Pct(t, "mutate", 18) {
 		return s
 	}
 	switch rapid.IntRange(0, 17).Draw(t, "mutation") {
@@ -916,21 +925,21 @@ func c26GenCase(t *rapid.T) c26Case {
 	c := c26Case{
 		Key:        c26KeyFor(rapid.IntRange(0, 63).Draw(t, "class"), rapid.IntRange(0, 255).Draw(t, "idx")),
 		RemoteAddr: c26GenAddr(t),
-		Auth:       rapid.SampledFrom([]int{c26AuthNone, c26AuthNone, c26AuthNone, c26AuthNone, c26AuthNone, c26AuthNone, c26AuthValid, c26AuthValid, c26AuthValid2, c26AuthRemoved, c26AuthForged, c26AuthGarbage, c26AuthBearer, c26AuthNoRoot, c26AuthTruncated}).Draw(t, "auth"),
+		Auth:       rapid.SampledFrom([]int{c26AuthNone, c26AuthNone, c26AuthNone, c26AuthValid, c26AuthValid, c26AuthValid2, c26AuthRemoved, c26AuthForged, c26AuthGarbage, c26AuthBearer, c26AuthNoRoot, c26AuthTruncated}).Draw(t, "auth"),
 		Polkit:     rapid.SampledFrom([]int{c26PkAuthorized, c26PkAuthorized, c26PkAuthorized, c26PkDenied, c26PkDenied, c26PkDismissed, c26PkInteraction, c26PkError}).Draw(t, "polkit"),
 		Grant:      rapid.SampledFrom([]int{c26GrantAll, c26GrantAll, c26GrantDeclared, c26GrantDeclared, c26GrantOthers}).Draw(t, "grant"),
 		PidSnap:    rapid.SampledFrom([]int{0, 0, 0, 0, 1, 2, -1}).Draw(t, "pidsnap"),
-		Degraded:   rapid.IntRange(0, 5).Draw(t, "degraded") == 0,
+		Degraded:   c26Pct(t, "degraded", 20),
 	}
 	n := rapid.SampledFrom([]int{0, 1, 1, 1, 2, 2, 3, 5}).Draw(t, "nconns")
 	for i := 0; i < n; i++ {
 		c.Conns = append(c.Conns, c26Conn{
 			Plug:        rapid.SampledFrom([]int{0, 0, 1, 2}).Draw(t, "plug"),
 			Slot:        rapid.SampledFrom([]int{0, 1, 2, 2}).Draw(t, "slot"),
-			Listed:      rapid.IntRange(0, 3).Draw(t, "listed") > 0,
+			Listed:      !c26Pct(t, "unlisted", 30),
 			Iface:       rapid.IntRange(0, 6).Draw(t, "iface"),
-			Undesired:   rapid.IntRange(0, 4).Draw(t, "undesired") == 0,
-			HotplugGone: rapid.IntRange(0, 6).Draw(t, "gone") == 0,
+			Undesired:   c26Pct(t, "undesired", 25),
+			HotplugGone: c26Pct(t, "gone", 18),
 		})
 	}
 	return c
@@ -945,15 +954,15 @@ func TestVerifC26Requests(t *testing.T) {
 			"allow":                       0.15,
 			"deny":                        0.30,
 			"creds-missing-or-unparsable": 0.08,
-			"sock-main":                   0.25,
+			"sock-main":                   0.20,
 			"sock-snap":                   0.20,
-			"allowed-only-by-polkit":      0.01,
-			"allowed-only-by-user":        0.01,
+			"allowed-only-by-polkit":      0.007,
+			"allowed-only-by-user":        0.008,
 			"allowed-only-by-plug":        0.01,
 			"denied-slot-side-only":       0.004,
 			"denied-inactive-conn":        0.004,
 			"invalid-auth-presented":      0.10,
-			"degraded-write":              0.05,
+			"degraded-write":              0.025,
 		},
 		NonTrivialFloor: 0.3,
 	})
